@@ -1,4 +1,5 @@
 import GarbleVerif.Proofs.ConvertSound
+import GarbleVerif.Proofs.ConvertValid
 /-!
 # C10 — the register-based circuit is equivalent to the SSA circuit and safe to execute
 
@@ -95,6 +96,87 @@ theorem C10_equiv (c : Circuit) (hv : c.validate = .ok ()) :
     have hinsts : stF.insts = inputInsts c.inputGates 0 0 ++ em := hins
     simp only [RCircuit.eval?, Circuit.eval?, hs, Bool.not_true, Bool.false_eq_true, if_false, hinsts,
       strictInsts_append, h1, hst, heg, hread]
+
+/-- **the converted circuit passes its own validation** (`register_circuit::Circuit::validate`): some party has an
+input bit, there are outputs, every register index is below the declared count, every `Input` instruction sits at
+the position of the register it writes and reads an existing input bit, no instruction reads a register that has
+not been written, every output register has been written, and the instruction count is within `MAX_GATES` -/
+theorem C10_valid (c : Circuit) (hv : c.validate = .ok ()) :
+    ∃ r, convert c = some r ∧ r.validate = .ok () := by
+  obtain ⟨r, hconv, hir, _, _, _, heq⟩ := C10_equiv c hv
+  refine ⟨r, hconv, ?_⟩
+  obtain ⟨hg, hone, hout, hsz⟩ := validate_all c hv
+  have hpos := totalInputs_pos c hv
+  -- the shape of what `convert` returns
+  have hlate := late_of_valid c hg
+  have hinv0 := init_inv0 c
+  have hconv' := hconv
+  unfold convert at hconv'
+  simp only at hconv'
+  split at hconv'
+  · simp at hconv'
+  · rename_i stF hcF
+    split at hconv'
+    · simp at hconv'
+    · rename_i outs houts
+      simp only [Option.some.injEq] at hconv'
+      obtain ⟨em, hem, heml, hemn⟩ := convertGates_emits (lastUseMap c) c.wiresLen c.gates c.totalInputs
+        (initAlloc c) hinv0 (by simp [Circuit.wiresLen]) hg hlate stF hcF
+      have hinsts : r.insts = inputInsts c.inputGates 0 0 ++ em := by rw [← hconv']; exact hem
+      have houtl : r.outputRegs.length = c.outputGates.length := by
+        rw [← hconv']; exact mapM_length _ _ _ houts
+      -- evaluate on the all-false input
+      let ins0 : List (List Bool) := c.inputGates.map fun n => List.replicate n false
+      have hs0 : Circuit.shapeOk c.inputGates ins0 = true := by
+        simp [Circuit.shapeOk, ins0, List.map_map, Function.comp_def]
+      have hfl := Circuit.flatten_length_of_shapeOk hs0
+      obtain ⟨ws, hws, hwl⟩ := Circuit.evalGates_some c.gates ins0.flatten (by rw [hfl]; exact hg)
+      obtain ⟨out, hout', _⟩ := Circuit.mapM_getElem?_some ws c.outputGates (by
+        intro o ho
+        have := hout o ho
+        simp only [Circuit.wiresLen, Circuit.totalInputs] at this ⊢
+        rw [hwl, hfl]; exact this)
+      have hev : r.eval? ins0 = some out := by
+        rw [heq ins0 hs0]
+        simp [Circuit.eval?, hs0, hws, hout']
+      -- hence the strict run of the instructions succeeds …
+      unfold RCircuit.eval? at hev
+      rw [hir] at hev
+      simp only [hs0, Bool.not_true, Bool.false_eq_true, if_false] at hev
+      cases hst : strictInsts ins0 r.insts (List.replicate r.maxRegCount none) with
+      | none => simp [hst] at hev
+      | some regsF =>
+        simp only [hst] at hev
+        -- … and so does the instruction loop of `validate`
+        obtain ⟨setF, hvi, hrel, hlen⟩ := strict_validate (inputRegs := c.inputGates) (n := r.maxRegCount) hs0
+          r.insts 0 (List.replicate r.maxRegCount false) (List.replicate r.maxRegCount none) regsF
+          (Rel2.init _) (by simp) (by
+            intro j inst hj hni
+            rw [hinsts] at hj
+            by_cases hjl : j < (inputInsts c.inputGates 0 0).length
+            · rw [List.getElem?_append_left hjl] at hj
+              have := inputInsts_out c.inputGates 0 0 j inst hj
+              omega
+            · rw [List.getElem?_append_right (by omega)] at hj
+              exact absurd (hemn inst (List.mem_of_getElem? hj)) hni) hst
+        obtain ⟨ho1, ho2⟩ := mapM_readReg_facts hrel r.outputRegs out hev
+        rw [hlen] at ho1
+        have hne : r.outputRegs.isEmpty = false := by
+          cases hr : r.outputRegs with
+          | nil =>
+            rw [hr] at houtl
+            have : c.outputGates = [] := List.eq_nil_of_length_eq_zero houtl.symm
+            exact absurd this hone
+          | cons _ _ => rfl
+        have hlenI : r.insts.length ≤ MAX_GATES := by
+          rw [hinsts, List.length_append, inputInsts_length, heml]
+          simp only [Circuit.wiresLen, Circuit.totalInputs] at hsz ⊢
+          omega
+        unfold RCircuit.validate
+        rw [hir, all_zero_false c.inputGates hpos, hne]
+        simp only [Bool.false_eq_true, if_false, ho1]
+        rw [if_neg (by omega), hvi]
+        exact ho2
 
 /-! ### non-vacuity -/
 
